@@ -97,8 +97,10 @@ package fasthttp
 //@   ensures[last-value] r[len(args)].noValue == noValue && (noValue ? len(r[len(args)].value) == 0 : string(r[len(args)].value) == value)
 
 // setArg: when an entry named key exists the slice keeps its length and storage; when there is none, a new last
-// entry (key, value, noValue) is appended and every other entry keeps its place and identity. (That exactly the first
-// match is rewritten and no other cell changes did not discharge within the time budget and is not claimed.)
+// entry (key, value, noValue) is appended and every other entry keeps its place and identity; when there is one, some
+// entry named key ends up with exactly the requested value and no-value flag. (That it is the *first* match that is
+// rewritten, and that no other cell changes, did not discharge within the time budget -- three formulations tried --
+// and is not claimed.)
 //@ func setArg results r
 //@   property C28 C29
 //@   frame assumed
@@ -108,6 +110,9 @@ package fasthttp
 //@                             len(r) == len(h) + 1 && (forall j in [0, len(h)): cell(r, j) == cell(old(h), j)) &&
 //@                             string(r[len(h)].key) == key && r[len(h)].noValue == noValue &&
 //@                             (noValue ? len(r[len(h)].value) == 0 : string(r[len(h)].value) == value)
+//@   ensures[a-match-gets-flag-and-value] (exists j in [0, len(h)): keyIs(old(h), key, j)) ==>
+//@                             exists j in [0, len(h)): keyIs(old(h), key, j) && r[j].noValue == noValue &&
+//@                               (noValue ? len(r[j].value) == 0 : string(r[j].value) == value)
 //@   loop 1:
 //@     invariant[none-so-far] 0 <= i && i <= n && n == len(h) && forall j in [0, i): !keyIs(h, key, j)
 //@     invariant[nothing-written-yet] sameheap() && sameSlice(h, old(h))
